@@ -28,6 +28,7 @@ def generate(rng, tier):
                             # the window keywords of the core transform given to the named transform (sorted grids; at least two points kept)
                             win = "none" if uns else rng.choice(["none", "grid", "between", "lo_only", "hi_only", "near", "hi_grid"])
                             c = F.gen_named_case(rng, "quick", direction, X, Y, lorch=lorch, omitted=omitted, channel=2, unsorted=uns, win=win)
+                            c["foreign_kw"] = bool(omitted and not lorch)
                             # every method sees uncertainties given (non-zero) and absent
                             if lorch == omitted:
                                 c["dy"] = [rng.logu(1e-4, 0.5) for _ in c["xin"]]
@@ -75,6 +76,20 @@ def nontrivial(case, res):
     return "exception" not in res and (any(v != 0 for v in case["yin"]))
 
 
+def compose(cv, tr, case, kw, x, y, xo, d):
+    if case["dir"] == 0:
+        X, Y = L.RN[case["X"]], L.GN[case["Y"]]
+        f, df = (y, d) if X == "F" else getattr(cv, X + "_to_F")(x, y, d, **kw)
+        r, T, E = tr.fourier_transform(x, f, xo, dy_in=df, **kw)
+        T = T * (2.0 / math.pi)
+        E = E * (2.0 / math.pi)
+        return (T, E) if Y == "G" else getattr(cv, "G_to_" + Y)(r, T, E, **kw)
+    X, Y = L.GN[case["X"]], L.RN[case["Y"]]
+    g, dg = (y, d) if X == "G" else getattr(cv, X + "_to_G")(x, y, d, **kw)
+    q, T, E = tr.fourier_transform(x, g, xo, dy_in=dg, **kw)
+    return (T, E) if Y == "F" else getattr(cv, "F_to_" + Y)(q, T, E, **kw)
+
+
 def oracle(pystog, case, res):
     """the named method's three return values equal: Converter.<X>_to_F (resp. _to_G) on the input, Transformer.fourier_transform
     with the caller's options (x 2/pi for Q->r), Converter.F_to_<Y> (resp. G_to_<Y>) on the result -- composed from the public
@@ -83,22 +98,13 @@ def oracle(pystog, case, res):
         return "raised %s: %s" % (res["exception"], res["message"])
     cv, tr = pystog.Converter(), pystog.Transformer()
     kw = F.named_kwargs(case)
+    if case.get("foreign_kw"):      # (the composition is made with the documented keys only)
+        kw = F.named_kwargs(dict(case, foreign_kw=False))
     x = np.array(case["xin"], float)
     y = np.array(case["yin"], float)
     xo = np.array(case["xout"], float)
     d = None if case["dy"] is None else np.array(case["dy"], float)
-    if case["dir"] == 0:
-        X, Y = L.RN[case["X"]], L.GN[case["Y"]]
-        f, df = (y, d) if X == "F" else getattr(cv, X + "_to_F")(x, y, d, **kw)
-        r, T, E = tr.fourier_transform(x, f, xo, dy_in=df, **kw)
-        T = T * (2.0 / math.pi)
-        E = E * (2.0 / math.pi)
-        v, e = (T, E) if Y == "G" else getattr(cv, "G_to_" + Y)(r, T, E, **kw)
-    else:
-        X, Y = L.GN[case["X"]], L.RN[case["Y"]]
-        g, dg = (y, d) if X == "G" else getattr(cv, X + "_to_G")(x, y, d, **kw)
-        q, T, E = tr.fourier_transform(x, g, xo, dy_in=dg, **kw)
-        v, e = (T, E) if Y == "F" else getattr(cv, "F_to_" + Y)(q, T, E, **kw)
+    v, e = compose(cv, tr, case, kw, x, y, xo, d)
     yo, eo = np.array(res["yout"]), np.array(res["eout"])
     with np.errstate(all="ignore"):
         ok_v = np.isclose(yo, np.asarray(v, float), rtol=1e-12, atol=1e-300, equal_nan=True)
@@ -110,4 +116,24 @@ def oracle(pystog, case, res):
     if not ok_e.all():
         i = int(np.flatnonzero(~ok_e)[0])
         return "%s: uncertainty %r differs from conversion-core-conversion %r (dy %s)" % (name, float(eo[i]), float(np.asarray(e)[i]), "given" if d is not None else "absent")
+    # the same with one sample flagged bad (numpy.ma.MaskedArray): whatever the pieces do with the flag, the named method does the same
+    if len(x) >= 4 and not case.get("int_dtype", [False] * 3)[1] and not case.get("big"):
+        import warnings
+        mask = np.zeros(len(x), bool)
+        mask[len(x) // 2] = True
+        ym = np.ma.MaskedArray(y.copy(), mask=mask)
+        outs = []
+        with warnings.catch_warnings():
+            warnings.simplefilter("ignore")
+            for route in (lambda: getattr(tr, name)(x, ym, xo, d, **kw)[1:], lambda: compose(cv, tr, case, kw, x, ym, xo, d)):
+                try:
+                    outs.append([np.asarray(np.ma.filled(np.ma.asarray(t), np.nan), float) for t in route()])
+                except Exception as ex:
+                    outs.append(type(ex).__name__)
+        if isinstance(outs[0], str) != isinstance(outs[1], str):
+            return "%s with a masked sample: %s, conversion-core-conversion: %s" % (name, *("raises " + o if isinstance(o, str) else "returns" for o in outs))
+        if not isinstance(outs[0], str):
+            for a_, b_, what in zip(outs[0], outs[1], ("value", "uncertainty")):
+                if a_.shape != b_.shape or not np.isclose(a_, b_, rtol=1e-12, atol=1e-300, equal_nan=True).all():
+                    return "%s with one sample masked (numpy.ma): %s differs from conversion-core-conversion on the same masked data (the flag is lost on one route)" % (name, what)
     return None
